@@ -2,13 +2,22 @@
 From Coq Require Import List Arith.
 Import ListNotations.
 From Exmex.Model Require Import Base EvalBinary Lexer Flat Deep Convert Calc Partial.
+From Exmex.Gen Require Import Tables.
+From Coq Require Import Reals.
+From Coquelicot Require Import Coquelicot.
+From Exmex.Proofs Require Import DeepSem DeepSubs C11Main DeepOps RealCarrier CalcSem Dual PartialCorrect PartialMain.
 Open Scope nat_scope.
 
 (* `_partial`: an index not smaller than the number of variables ANYWHERE in an index sequence is an error, for
    every expression, data type, table and mode, and it is detected before any differentiation step is executed
    (the result does not depend on partial_deepex at all); order zero only recompiles the expression.
-   Missing: that the variable list of a derivative is that of its antiderivative and the equalities n-th = n single
-   steps, iterated = sequential, mixed partials -- covered by the correspondence and its numeric oracle. *)
+   Over the real carrier (C05's setting): Differentiate::partial_iter with a non-empty index sequence, on every built
+   expression, returns an expression with exactly the variable list of the antiderivative (so the same value slice
+   evaluates both: C09_same_values_evaluate_both) that is reached by differentiating with respect to the listed
+   variables one after the other, in that order: every step keeps the variable list and denotes the derivative of the
+   step before (C09_iterated_is_the_sequence_of_single_steps; partial_nth is the sequence with one index repeated).
+   Missing: equality of mixed partials (an analytic fact about twice differentiable functions, not about the code) --
+   covered by the correspondence and its numeric oracle. *)
 Theorem C09_index_checked_first_partial :
   forall (D : Type) (C : carrier D) (DC : dcarrier D) (tb : optable) (e : deepex D) (idxs : list nat) (mode : missing_mode),
   (exists i, In i idxs /\ length (dvars e) <= i) -> partial_iter_deep C DC tb e idxs mode = Err E_INDEX.
@@ -23,4 +32,29 @@ Theorem C09_order_zero_partial :
   partial_iter_deep C DC tb e [] mode = dcompile C e.
 Proof. reflexivity. Qed.
 
+(* the variable list of a derivative, of any order, is that of its antiderivative *)
+Theorem C09_derivative_keeps_the_variable_list :
+  forall (e r : deepex R) (i : nat) (tl : list nat), built e ->
+  partial_iter_deep Rc RDC float_table e (i :: tl) MError = Ok r -> dvars r = dvars e /\ built r.
+Proof. intros e r i tl Hb H. destruct (partial_iter_chain e r i tl Hb H) as (H1 & H2 & _). split; assumption. Qed.
+
+Theorem C09_same_values_evaluate_both :
+  forall (e r : deepex R) (i : nat) (tl : list nat) (vals : list R), built e ->
+  partial_iter_deep Rc RDC float_table e (i :: tl) MError = Ok r -> length vals = length (dvars e) ->
+  (exists v, eval_deep Rc e vals = Ok v) /\ (exists v, eval_deep Rc r vals = Ok v).
+Proof.
+  intros e r i tl vals Hb H Hl. destruct (partial_iter_chain e r i tl Hb H) as (H1 & H2 & _). split.
+  - eexists. exact (eval_is_den (dvars e) vals e (built_indexed e Hb) Hl).
+  - eexists. refine (eval_is_den (dvars r) vals r (built_indexed r H2) _). rewrite H1. exact Hl.
+Qed.
+
+(* an iterated derivative is the sequence of single derivatives in the given order (deriv_chain, Proofs/PartialMain.v) *)
+Theorem C09_iterated_is_the_sequence_of_single_steps :
+  forall (e r : deepex R) (i : nat) (tl : list nat), built e ->
+  partial_iter_deep Rc RDC float_table e (i :: tl) MError = Ok r -> deriv_chain e (i :: tl) r.
+Proof. intros e r i tl Hb H. exact (proj2 (proj2 (partial_iter_chain e r i tl Hb H))). Qed.
+
 Print Assumptions C09_index_checked_first_partial.
+Print Assumptions C09_derivative_keeps_the_variable_list.
+Print Assumptions C09_same_values_evaluate_both.
+Print Assumptions C09_iterated_is_the_sequence_of_single_steps.
